@@ -19,6 +19,14 @@ func buildCases(id string, g *Gen) []*Case {
 		return casesC07(g)
 	case "C13":
 		return casesC13(g)
+	case "C14":
+		return casesC14(g)
+	case "C16":
+		return casesC16(g)
+	case "C17":
+		return casesC17(g)
+	case "C20":
+		return casesC20(g)
 	case "C18":
 		return casesC18(g)
 	case "C08":
